@@ -633,20 +633,25 @@ def _interp(fr):
             sub = app.request.copy()
             inner = dict(app=act[1], tok=fr['tok'] + 'cc', script=act[2], qs=fr['qs'], method=fr['method'],
                          form=None, cookie=fr['cookie'], readonly=fr.get('readonly'))
+            if len(act) > 3:
+                inner.update(act[3])          # e.g. {'hook_input': True}
             do_call(fr['apps'], inner, fr['log'], environ=sub.environ, path=fr['path'])
         elif kind == 'body_read':
             # reading the body of a malformed / oversize request raises the framework's pre-built 400 / 413
-            if fr.get('chunked_bad') or fr.get('json_bad'):
+            if fr.get('chunked_bad') or fr.get('json_bad') or fr.get('json_nonobj'):
                 fr['w_final'], fr['w_status'] = 'error', 400
             elif fr.get('too_big'):
                 fr['w_final'], fr['w_status'] = 'error', 413
             if fr.get('json_bad'):
-                app.request.json
+                app.request.json                  # BodyParsingError('Invalid JSON')
+            if fr.get('json_nonobj'):
+                app.request.forms                 # BodyParsingError('JSON object expected')
             data = app.request.body.read()
             fr['log'].append(dict(kind='form', tok=fr['tok'], got=dict(body=data.decode('latin1')),
                                   want=dict(body=fr['form'] or '')))
         elif kind == 'new_app':
-            fr['apps'].append(ombott.Ombott())
+            # ['new_app'] or ['new_app', cfg-kind]: an application (with its own configuration) built while serving
+            fr['apps'].append(ombott.Ombott(app_config(act[1])) if len(act) > 1 else ombott.Ombott())
         elif kind == 'form_see':
             got = {}
             try:
@@ -682,13 +687,54 @@ def _interp(fr):
     return 'done:' + fr['tok']
 
 
+def app_config(kind):
+    """configuration dicts a user may pass to Ombott(): they belong to that application only"""
+    from ombott import HTTPError
+    from ombott.request_pkg import errors as rq_errors
+    if kind == 'errors_map422':
+        return {'errors_map': {rq_errors.BodyParsingError: HTTPError(422, 'Unprocessable body'),
+                               rq_errors.RequestError: HTTPError(422, 'Unprocessable request')}}
+    if kind == 'errors_map_size':
+        return {'errors_map': {rq_errors.BodySizeError: HTTPError(507, 'No room')}}
+    if kind == 'max_body5':
+        return {'max_body_size': 5}
+    if kind == 'memfile7':
+        return {'max_memfile_size': 7}
+    raise ValueError(kind)
+
+
+def chunked(body, sizes=(26, 17)):
+    """a legal chunked encoding with two-digit hex size lines"""
+    out, i, k = b'', 0, 0
+    while i < len(body):
+        n = sizes[k % len(sizes)]
+        part = body[i:i + n]
+        out += b'%x\r\n' % len(part) + part + b'\r\n'
+        i += n
+        k += 1
+    return out + b'0\r\n\r\n'
+
+
+def _before_request_hook(app):
+    def hook():
+        # a body-normalising hook: reads nothing, but gives ITS OWN request a new input stream
+        import io
+        fr = _tl.stack[-1]
+        if fr.get('hook_input'):
+            new = ('h=%shook' % fr['tok']).encode()
+            app.request['wsgi.input'] = io.BytesIO(new)
+            app.request['CONTENT_LENGTH'] = str(len(new))
+            fr['form'] = new.decode()
+    return hook
+
+
 def do_call(apps, call, log, environ=None, path=None):
     """one WSGI call of apps[call['app']]; appends the records of everything seen to `log`; returns the response.
     `environ`/`path`: serve this ready-made environ (a copy handed over by another handler) instead of a new one"""
     import io
     import ombott
     if call.get('construct'):
-        apps.append(ombott.Ombott())
+        apps.append(ombott.Ombott(app_config(call['cfg'])) if call.get('cfg') else ombott.Ombott())
         log.append(dict(kind='constructed'))
         return None
     tok = call['tok']
@@ -706,9 +752,14 @@ def do_call(apps, call, log, environ=None, path=None):
         if call.get('chunked_bad'):
             env['HTTP_TRANSFER_ENCODING'] = 'chunked'
             env['wsgi.input'] = io.BytesIO(b'zz\r\n' + body + b'\r\n0\r\n\r\n')     # 'zz' is not a hex size
+        elif call.get('chunked_ok'):
+            env['HTTP_TRANSFER_ENCODING'] = 'chunked'
+            env['CONTENT_TYPE'] = 'application/x-www-form-urlencoded'
+            env['wsgi.input'] = io.BytesIO(chunked(body))
         elif form:
             env['CONTENT_LENGTH'] = str(len(body))
-            env['CONTENT_TYPE'] = 'application/json' if call.get('json_bad') else 'application/x-www-form-urlencoded'
+            env['CONTENT_TYPE'] = ('application/json' if call.get('json_bad') or call.get('json_nonobj')
+                                   else 'application/x-www-form-urlencoded')
         if call.get('cookie'):
             env['HTTP_COOKIE'] = call['cookie']
         if call.get('accept'):
@@ -718,7 +769,7 @@ def do_call(apps, call, log, environ=None, path=None):
     fr = dict(apps=apps, app=call['app'], tok=tok, path=path, qs=call.get('qs', ''),
               method=call.get('method', 'GET'), form=form, cookie=call.get('cookie'), script=call['script'],
               readonly=call.get('readonly'), chunked_bad=call.get('chunked_bad'), too_big=call.get('too_big'),
-              json_bad=call.get('json_bad'),
+              json_bad=call.get('json_bad'), json_nonobj=call.get('json_nonobj'), hook_input=call.get('hook_input'),
               log=log, w_hdrs={}, w_status=200, w_cookies={}, w_final='text', w_body='done:' + tok)
     if not hasattr(_tl, 'stack'):
         _tl.stack = []
@@ -762,6 +813,7 @@ def make_apps(napps, use_default, max_body=None):
                 a.route('/r/<x0>', method='ANY', callback=a._verif_handler)
                 for code in ERROR_CODES:
                     a.error(code)(_error_handler_for(a))
+                a.add_hook('before_request', _before_request_hook(a))
                 _DEFAULT_READY[0] = True
         else:
             a = ombott.Ombott(dict(max_body_size=max_body)) if max_body is not None else ombott.Ombott()
@@ -769,13 +821,14 @@ def make_apps(napps, use_default, max_body=None):
             a.route('/r/<x%d>' % i, method='ANY', callback=a._verif_handler)
             for code in ERROR_CODES:
                 a.error(code)(_error_handler_for(a))
+            a.add_hook('before_request', _before_request_hook(a))
         apps.append(a)
     return apps
 
 
 def arr_codes():
     # the handler proper; the recording helpers (_see, _view, _want) and do_call are harness, not handler
-    return [f.__code__ for f in (_handler, _interp, _gen_body, _error_handler_for(None))]      # _handler: one code object for all applications
+    return [f.__code__ for f in (_handler, _interp, _gen_body, _error_handler_for(None), _before_request_hook(None))]      # _handler: one code object for all applications
 
 
 def repo_trace_dir():
